@@ -513,6 +513,39 @@ def check_resource_asserts(P, ctx):
             if key in holders:
                 c, name = holders[key]
                 r7.instance("%s:%s" % (f.qname, name))
+                # is the aborting edge feasible at all?  (an assertion after `if (fd < 0) return ...` can never fail)
+                ab_blocks = {s_ for s_, lab in es if _aborts_block(f, s_)}
+                reached = set()
+
+                class AbortReach(S.SeqRule):
+                    def inline(s2, fn, nid, callee):
+                        return False
+
+                    def on_abort(s2, fn, st, blk, top):
+                        if top:
+                            reached.add(blk.id)
+                try:
+                    S.run(AbortReach(P), f)
+                    feasible = bool(reached & set().union(*[C.reachable_blocks(f, x) for x in ab_blocks])) if ab_blocks else True
+                    # only aborts whose path goes through THIS condition's failing edge count
+                    if feasible:
+                        live_edge = set()
+
+                        class Edge(S.SeqRule):
+                            def inline(s2, fn, nid, callee):
+                                return False
+
+                            def on_branch(s2, fn, st, blk, cond2, label):
+                                if blk.id == b.id and label in ab:
+                                    live_edge.add(label)
+                                return None
+                        S.run(Edge(P), f)
+                        feasible = bool(live_edge)
+                except RuntimeError:
+                    feasible = True
+                if not feasible:
+                    r7.ok("%s: the assertion on the result of %s cannot fail (the failure was handled before)" % (f.qname, name), "sign classes on the path")
+                    continue
                 r7.violation("%s:%s:asserted" % (f.name, name), "the result of %s is asserted (`%s`): when the call fails for lack of resources "
                              "(EMFILE/ENFILE/ENOMEM/ENOSPC) the process is aborted instead of the error being returned" % (name, f.show(cond)), loc=f.loc(c))
         # (a) a possibly failed descriptor handed to a function that asserts it valid
